@@ -69,6 +69,11 @@ def stepOp (spec : Bool) (e : Env) (sp : Sp) : List String → Option (Sp × Str
   | ["ev", name, tgt, lvl, fs] => do
     let m ← mkMeta name tgt lvl fs false
     pure (sp, "e:" ++ b (if spec then specPasses e sp m else passes e sp.st m))
+  | ["qi", kind, name, tgt, lvl, fs] => do
+    -- what the filter answers when asked directly: the cached summary (register_callsite) and the decision (enabled) here and now
+    let m ← mkMeta name tgt lvl fs (kind == "s")
+    let i := match registerCallsite e m with | .never => "n" | .sometimes => "s" | .always => "a"
+    pure (sp, s!"i:{i},q:{b (EnvDyn.enabled e sp.st m)}")
   | ["rc", k, vals] => do pure ({ sp with st := record sp.st (← k.toNat?) (parseVals vals) }, "-")
   | ["en", k] => do
     let k ← k.toNat?
